@@ -688,3 +688,7 @@ SUBCHECKS = [
              'edited parse results; anycast) and grow-then-shrink pairs; round trip of the valid address re-checked after every step'),
     Sub('history-random', check_history, strategy=strat_history, classify=classify, nontrivial=nt, n=(250, 40000), shards=(8, 32)),
 ]
+
+# the same generated cases, several at a time, checked by threads that run at the same time (core.run_overlapping): per-call state
+# kept in a place two calls share shows only there
+SUBCHECKS.append(__import__('harness.core', fromlist=['overlapped']).overlapped(next(s for s in SUBCHECKS if s.name == 'roundtrip-random'), k=4, n=(80, 4000)))
